@@ -8,6 +8,7 @@ import (
 	"fmt"
 	"math"
 	"math/rand"
+	"sort"
 
 	"github.com/whatap/golib/util/hll"
 
@@ -146,6 +147,14 @@ type hist struct {
 	// noEst: the items were crafted from chosen hash bit patterns; the error bound
 	// of the estimate is a statement about hashed (spread) items and says nothing here
 	noEst bool
+	// held: every slice GetBytes returned through bytes(), kept UNCOPIED under a
+	// snapshot id: a byte form is a value of the moment it was taken; it is
+	// projected again later (Held) and counters are rebuilt from it (BuildHeld)
+	held     map[int][]byte
+	lastSnap int
+	heldIds  []int
+	heldFull map[int]bool
+	nextSnap int
 }
 
 func (h *hist) panicEv(what string, msg string) {
@@ -245,8 +254,72 @@ func (h *hist) bytes(id int, p int) []byte {
 	ev := projectBytes(b, p <= 8)
 	ev["ev"] = "Bytes"
 	ev["c"] = id
+	// the caller keeps what it got (the very slice, no copy)
+	h.nextSnap++
+	sid := h.nextSnap
+	ev["s"] = sid
+	h.held[sid] = b
+	h.heldFull[sid] = p <= 8
+	h.heldIds = append(h.heldIds, sid)
+	h.lastSnap = sid
 	h.t.Emit(ev)
 	return b
+}
+
+// heldAll looks again at every byte form kept so far.
+func (h *hist) heldAll() {
+	if h.dead {
+		return
+	}
+	for _, sid := range h.heldIds {
+		b, ok := h.held[sid]
+		if !ok {
+			continue
+		}
+		ev := projectBytes(b, h.heldFull[sid])
+		ev["ev"] = "Held"
+		ev["s"] = sid
+		h.t.Emit(ev)
+	}
+}
+
+// buildHeld rebuilds a counter from a byte form kept since it was taken: from
+// the kept slice itself, or (private) from a copy that the caller then reuses
+// for something else.
+func (h *hist) buildHeld(sid int, private bool, r *rand.Rand) int {
+	d := h.next
+	h.next++
+	if h.dead {
+		return d
+	}
+	src := h.held[sid]
+	if private {
+		src = append([]byte(nil), src...)
+	}
+	var n *hll.HyperLogLog
+	if msg := core.Guard(func() { n = hll.BuildHyperLogLog(src) }); msg != "" || n == nil {
+		h.panicEv("Build", msg)
+		return d
+	}
+	h.ctr[d] = n
+	h.t.Emit(core.Ev{"ev": "BuildHeld", "d": d, "s": sid})
+	if private {
+		r.Read(src)
+		h.t.Emit(core.Ev{"ev": "Scribble", "d": d})
+	}
+	return d
+}
+
+// scribble: the caller writes into the slice GetBytes gave it (it is the
+// caller's); the slice is not looked at again.
+func (h *hist) scribble(sid int, r *rand.Rand) {
+	b, ok := h.held[sid]
+	if h.dead || !ok {
+		return
+	}
+	r.Read(b)
+	delete(h.held, sid)
+	h.t.Emit(core.Ev{"ev": "Scribble", "s": sid})
 }
 
 func (h *hist) same(a, b int) {
@@ -355,7 +428,7 @@ func pickSize(r *rand.Rand, m, cap int) int {
 func coreHistory(c *core.Ctx, t *core.Trace, gen string, cas int, p int, capN int) {
 	r := c.Rng(gen, cas)
 	t.Reset(gen, cas, core.Ev{"p": p})
-	h := &hist{t: t, ctr: map[int]*hll.HyperLogLog{}, next: 1}
+	h := &hist{t: t, ctr: map[int]*hll.HyperLogLog{}, next: 1, held: map[int][]byte{}, heldFull: map[int]bool{}}
 	m := 1 << uint(p)
 	var items []item
 	if gen == "edge" {
@@ -439,6 +512,8 @@ func coreHistory(c *core.Ctx, t *core.Trace, gen string, cas int, p int, capN in
 	h.same(rb, cp)
 	h.same(rb, a)
 	h.est(rb)
+	// every byte form obtained so far is still what it was when it was obtained
+	h.heldAll()
 	// in-place AddAll
 	if k >= 2 {
 		h.addAll(ids[0], ids[1])
@@ -448,6 +523,64 @@ func coreHistory(c *core.Ctx, t *core.Trace, gen string, cas int, p int, capN in
 	}
 	h.addAll(cp, b)
 	h.bytes(cp, p)
+	// a counter that reports in stages: the byte form and the estimate of every
+	// stage are kept while the counter goes on (offers, a final AddAll)
+	st := h.newCtr(p)
+	ns := 2 + r.Intn(3)
+	cuts := make([]int, ns+1)
+	for j := 1; j < ns; j++ {
+		cuts[j] = r.Intn(n + 1)
+	}
+	cuts[ns] = n
+	sort.Ints(cuts)
+	perm := r.Perm(n)
+	var reports []int
+	for j := 0; j < ns; j++ {
+		chunk := make([]item, 0, cuts[j+1]-cuts[j])
+		for _, ix := range perm[cuts[j]:cuts[j+1]] {
+			chunk = append(chunk, items[ix])
+		}
+		h.offerAll(st, chunk, r, 5)
+		if j == ns-1 && r.Intn(2) == 0 {
+			h.addAll(st, cp) // cp has seen the extra items as well
+		}
+		h.bytes(st, p)
+		reports = append(reports, h.lastSnap)
+		h.est(st)
+	}
+	h.same(st, a)
+	h.heldAll()
+	// counters rebuilt from the kept reports are in the state of the stage reported,
+	// with its estimate; the union of the reports is the last state
+	var built []int
+	for _, sid := range reports {
+		built = append(built, h.buildHeld(sid, r.Intn(3) == 0, r))
+	}
+	for _, d := range built {
+		h.bytes(d, p)
+		h.est(d)
+	}
+	u := h.merge(built[0], built[1:])
+	h.same(u, st)
+	h.bytes(u, p)
+	// a rebuilt counter is a live counter of its own
+	for _, it := range extra {
+		h.offer(built[0], it, r)
+	}
+	h.offer(st, distinctItems(r, 1)[0], r)
+	h.bytes(built[0], p)
+	h.bytes(st, p)
+	h.heldAll()
+	// at last the caller reuses slices it was given: no counter notices
+	for _, sid := range h.heldIds {
+		if r.Intn(2) == 0 {
+			h.scribble(sid, r)
+		}
+	}
+	for _, id := range []int{a, st, rb, ids[0], built[0], built[len(built)-1], u} {
+		h.bytes(id, p)
+	}
+	h.heldAll()
 	c.Count(fmt.Sprintf("%s:%d:%d:%d", gen, p, n, k), n >= 2)
 	if cas < 2 {
 		c.Sample(map[string]interface{}{"gen": gen, "case": cas, "p": p, "distinct_items": n, "parts": k})
@@ -511,7 +644,7 @@ func bulkHistory(c *core.Ctx, t *core.Trace, gen string, cas int, p int, dense b
 }
 
 func Run(c *core.Ctx) error {
-	c.Rule = "per precision 4..16: a random set of distinct 32/64-bit items offered to real counters in two orders with duplicates, split into 1..4 overlapping parts and merged in two associations, serialised and rebuilt, every Offer boolean / GetBytes / Cardinality recorded; the same over items crafted (by inverting the 32-bit item hash) to have chosen index and remainder bits: all-zero remainder, single bits, first/last register, word boundaries; plus estimate checkpoints of counters fed up to 5m (every third: 16m) distinct items; a case is non-trivial if it involves at least 2 distinct items; distinct by (precision, set size, split) resp. (precision, n, estimate)"
+	c.Rule = "per precision 4..16: a random set of distinct 32/64-bit items offered to real counters in two orders with duplicates, split into 1..4 overlapping parts and merged in two associations, serialised and rebuilt, a counter reporting in 2..4 stages, every Offer boolean / GetBytes / Cardinality recorded, every GetBytes slice kept uncopied, looked at again after later calls, rebuilt from and finally overwritten by the caller; the same over items crafted (by inverting the 32-bit item hash) to have chosen index and remainder bits: all-zero remainder, single bits, first/last register, word boundaries; plus estimate checkpoints of counters fed up to 5m (every third: 16m) distinct items; a case is non-trivial if it involves at least 2 distinct items; distinct by (precision, set size, split) resp. (precision, n, estimate)"
 	t := c.Trace("c14_hll", "Trace_HLL")
 	if c.WantGen("core") {
 		per := c.Pick(5, 40)
